@@ -200,6 +200,8 @@ class _Inliner:
             call, mode = stmt.value, "expr"
         elif isinstance(stmt, ast.Expr) and isinstance(stmt.value, ast.YieldFrom) and isinstance(stmt.value.value, ast.Call):
             call, mode = stmt.value.value, "yieldfrom"
+        if call is None and isinstance(stmt, ast.For) and isinstance(stmt.iter, ast.Call) and not stmt.orelse:
+            return self.expand_for(mod, cls_node, stmt, fn_locals)
         if call is None:
             return None
         hit = self.helper_for(mod, cls_node, call)
@@ -216,6 +218,37 @@ class _Inliner:
         is_gen = any(isinstance(n, (ast.Yield, ast.YieldFrom)) for s in h.body for n in ast.walk(s))
         if is_gen != (mode == "yieldfrom"):
             return None
+        inst = self._instantiate(h, call, recv, is_static, fn_locals)
+        if inst is None:
+            return None
+        pre, body = inst
+        if mode == "return":
+            new = body
+        elif mode == "yieldfrom":
+            new = body
+        else:
+            if mode == "assign":
+                def k(value, target=target):
+                    return [ast.Assign(targets=[copy.deepcopy(target)], value=value)]
+            else:
+                def k(value):
+                    return [] if isinstance(value, ast.Constant) else [ast.Expr(value=value)]
+            new = _tail(body, k)
+            if new is None:
+                return None
+        out = pre + new
+        for s in out:
+            for n in ast.walk(s):
+                if not hasattr(n, "lineno") or True:
+                    n.lineno = getattr(stmt, "lineno", 1)
+                    n.col_offset = getattr(stmt, "col_offset", 0)
+                    n.end_lineno = getattr(stmt, "end_lineno", n.lineno)
+                    n.end_col_offset = getattr(stmt, "end_col_offset", 0)
+        self.log.append(f"inlined {q} at {mod.path}:{getattr(stmt, 'lineno', 0)}")
+        return out or [ast.copy_location(ast.Pass(), stmt)]
+
+    def _instantiate(self, h, call, recv, is_static, fn_locals, keep=frozenset()):
+        """(pre statements binding non-trivial actuals, helper body with parameters substituted) or None."""
         a = h.args
         if a.vararg or a.kwarg or a.posonlyargs:
             return None
@@ -278,34 +311,104 @@ class _Inliner:
                 if not (isinstance(v, ast.Name) and v.id == newname):
                     pre.append(ast.Assign(targets=[ast.Name(id=newname, ctx=ast.Store())], value=copy.deepcopy(v)))
         for loc in sorted(assigned - set(allp)):
-            if loc in fn_locals:
+            if loc in fn_locals and loc not in keep:
                 mapping[loc] = ast.Name(id=loc + suffix, ctx=ast.Load())
         sub = _Subst(mapping, lambdas)
         body = [sub.visit(s) for s in body]
-        if mode == "return":
-            new = body
-        elif mode == "yieldfrom":
-            new = body
-        else:
-            if mode == "assign":
-                def k(value, target=target):
-                    return [ast.Assign(targets=[copy.deepcopy(target)], value=value)]
-            else:
-                def k(value):
-                    return [] if isinstance(value, ast.Constant) else [ast.Expr(value=value)]
-            new = _tail(body, k)
-            if new is None:
-                return None
-        out = pre + new
-        for s in out:
-            for n in ast.walk(s):
-                if not hasattr(n, "lineno") or True:
+        return pre, body
+
+    def expand_for(self, mod, cls_node, stmt, fn_locals):
+        """for T in gen(args): BODY   with gen an unknown generator helper
+        ->  gen's body with every `yield E` replaced by `T = E; BODY`."""
+        hit = self.helper_for(mod, cls_node, stmt.iter)
+        if hit is None:
+            return None
+        h, recv, q = hit
+        decos = [ast.unparse(d) for d in h.decorator_list]
+        is_static = any(d.endswith("staticmethod") for d in decos)
+        if any(not (d.endswith("staticmethod") or d.endswith("classmethod")) for d in decos):
+            return None
+        if any(isinstance(n, (ast.FunctionDef, ast.ClassDef, ast.Global, ast.Nonlocal, ast.AsyncFunctionDef, ast.Lambda, ast.YieldFrom))
+               for s_ in h.body for n in ast.walk(s_)):
+            return None
+        ys = [n for s_ in h.body for n in ast.walk(s_) if isinstance(n, ast.Yield)]
+        ystm = [n for s_ in h.body for n in ast.walk(s_) if isinstance(n, ast.Expr) and isinstance(n.value, ast.Yield)]
+        if not ys or len(ys) != len(ystm) or any(y.value is None for y in ys):
+            return None
+        if any(isinstance(n, ast.Return) and n.value is not None for s_ in h.body for n in ast.walk(s_)):
+            return None
+        if any(isinstance(n, ast.Return) for s_ in h.body for n in ast.walk(s_)):
+            return None
+        # the consumer body must not leave or restart the loop on its own
+        def escapes(stmts):
+            for x in stmts:
+                if isinstance(x, (ast.Break, ast.Continue)):
+                    return True
+                if isinstance(x, (ast.For, ast.While, ast.FunctionDef, ast.ClassDef)):
+                    continue
+                for field in ("body", "orelse", "finalbody"):
+                    sub = getattr(x, field, None)
+                    if isinstance(sub, list) and sub and isinstance(sub[0], ast.stmt) and escapes(sub):
+                        return True
+                if isinstance(x, ast.Try) and any(escapes(hh.body) for hh in x.handlers):
+                    return True
+            return False
+        if escapes(stmt.body):
+            return None
+        # The loop variables may share their names with the generator's own locals when the consumer uses them
+        # nowhere but in this loop and never assigns them: then `i, j = i, j` is the identity and is dropped.
+        tnames = {n.id for n in ast.walk(stmt.target) if isinstance(n, ast.Name)}
+        keep = set()
+        fn = getattr(self, "cur_fn", None)
+        if fn is not None:
+            inside = {id(n) for n in ast.walk(stmt)}
+            for t in tnames:
+                occ = [n for n in ast.walk(fn) if isinstance(n, ast.Name) and n.id == t]
+                stored_in_body = any(isinstance(n, ast.Name) and n.id == t and isinstance(n.ctx, (ast.Store, ast.Del))
+                                     for b in stmt.body for n in ast.walk(b))
+                is_param = t in {a.arg for a in fn.args.posonlyargs + fn.args.args + fn.args.kwonlyargs}
+                if all(id(n) in inside for n in occ) and not stored_in_body and not is_param:
+                    keep.add(t)
+        inst = self._instantiate(h, stmt.iter, recv, is_static, fn_locals, keep=frozenset(keep))
+        if inst is None:
+            return None
+        pre, body = inst
+
+        def same(a, b):
+            return ast.dump(ast.parse(ast.unparse(a), mode="eval").body).replace("Store()", "Load()") == \
+                ast.dump(ast.parse(ast.unparse(b), mode="eval").body).replace("Store()", "Load()")
+
+        def splice(stmts):
+            out = []
+            for x in stmts:
+                if isinstance(x, ast.Expr) and isinstance(x.value, ast.Yield):
+                    if not same(stmt.target, x.value.value):
+                        out.append(ast.Assign(targets=[copy.deepcopy(stmt.target)], value=x.value.value))
+                    out.extend(copy.deepcopy(b) for b in stmt.body)
+                    continue
+                for field in ("body", "orelse", "finalbody"):
+                    sub = getattr(x, field, None)
+                    if isinstance(sub, list) and sub and isinstance(sub[0], ast.stmt):
+                        setattr(x, field, splice(sub))
+                if isinstance(x, ast.Try):
+                    for hh in x.handlers:
+                        hh.body = splice(hh.body)
+                out.append(x)
+            return out
+        out = pre + splice(body)
+        for s_ in out:
+            for n in ast.walk(s_):
+                if isinstance(n, ast.Name) and isinstance(n.ctx, ast.Load) and isinstance(getattr(n, "ctx", None), ast.Load):
+                    pass
+                if not hasattr(n, "lineno"):
                     n.lineno = getattr(stmt, "lineno", 1)
                     n.col_offset = getattr(stmt, "col_offset", 0)
                     n.end_lineno = getattr(stmt, "end_lineno", n.lineno)
                     n.end_col_offset = getattr(stmt, "end_col_offset", 0)
-        self.log.append(f"inlined {q} at {mod.path}:{getattr(stmt, 'lineno', 0)}")
-        return out or [ast.copy_location(ast.Pass(), stmt)]
+        for s_ in out:
+            ast.fix_missing_locations(s_)
+        self.log.append(f"inlined generator {q} into the loop at {mod.path}:{getattr(stmt, 'lineno', 0)}")
+        return out
 
     def _local_lambda(self, name):
         """The lambda a local name is bound to, when it is assigned exactly once in the current function."""
